@@ -56,7 +56,7 @@ def gen_cases(tier, seed):
                 "full": bool(rng.integers(2)),
                 "is_symmetry": bool(rng.integers(6) != 0),
                 "store_dense_svecs": bool(rng.integers(2)),
-                "model": ["pair", "proj"][rng.integers(2)],
+                "model": ["pair", "proj", "central"][rng.integers(3)],  # central: bond-stretching springs only (exact zeros among the forces)
                 "mseed": int(rng.integers(10 ** 6)),
                 # a second structure solved in the same process right after the first: the same crystal with its atoms listed in another order,
                 # or the same crystal in the supercell with permuted axes (same atom count, same site symmetries, different arrangement)
@@ -105,6 +105,10 @@ def _run_one(c):
     x = np.array(sc.scaled_positions)
     if c["model"] == "pair":
         fc = models.pair_fc(L, x, sc.symbols, cutoff=4.6)
+    elif c["model"] == "central":
+        fc = models.pair_fc(L, x, sc.symbols, cutoff=3.3, transverse=0.0)
+        if np.abs(fc).max() < 1e-8:
+            fc = models.pair_fc(L, x, sc.symbols, cutoff=4.6, transverse=0.0)
     else:
         try:
             rots, trans = setup.supercell_ops(ph)
